@@ -382,3 +382,139 @@ var ruleA10 = &Rule{
 }
 
 func init() { register(ruleL1, ruleE2, ruleA10) }
+
+// ---------------------------------------------------------------------------------
+// A11 announce key covers (day, fingerprint)
+
+var ruleA11 = &Rule{
+	ID:    "A11",
+	Floor: 3,
+	Doc: "announce key covers day and fingerprint: in the function that marks the announce cache (calls ICache.CheckAndSet), the key is hashed from a local byte array; the constant sub-ranges written into that array (copy / binary.PutUintNN) are pairwise disjoint, together cover the array, " +
+		"and every value parameter of the function (the day and the fingerprint) feeds one of them — a key that drops the day announces a series once per cache lifetime instead of once per day, so later days get no index row",
+	Run: func(c *Ctx) []Obl {
+		var obls []Obl
+		for _, fi := range c.Funcs(c.PkgsUnder("writer/utils/unmarshal")) {
+			if isTestFile(c, fi.Decl) {
+				continue
+			}
+			info := fi.Pkg.TypesInfo
+			var mark *ast.CallExpr
+			ast.Inspect(fi.Decl.Body, func(n ast.Node) bool {
+				if call, ok := n.(*ast.CallExpr); ok {
+					if se, ok := ast.Unparen(call.Fun).(*ast.SelectorExpr); ok && se.Sel.Name == "CheckAndSet" {
+						if tv, ok := info.Types[se.X]; ok && strings.Contains(tv.Type.String(), "numbercache") {
+							mark = call
+						}
+					}
+				}
+				return true
+			})
+			if mark == nil || fi.Decl.Recv != nil {
+				continue
+			}
+			name := fi.Name()
+			// the local array
+			var arr types.Object
+			var arrLen int64
+			ast.Inspect(fi.Decl.Body, func(n ast.Node) bool {
+				if vs, ok := n.(*ast.ValueSpec); ok {
+					for _, nm := range vs.Names {
+						if o := info.Defs[nm]; o != nil {
+							if at, ok := o.Type().Underlying().(*types.Array); ok {
+								arr, arrLen = o, at.Len()
+							}
+						}
+					}
+				}
+				return true
+			})
+			if arr == nil {
+				obls = append(obls, Obl{Key: name + " key buffer", Pos: c.pos(fi.Decl.Pos()), Status: Undecided, Msg: "no local key array found"})
+				continue
+			}
+			type rng struct {
+				lo, hi int64
+				src    ast.Expr
+				pos    token.Pos
+			}
+			var writes []rng
+			ast.Inspect(fi.Decl.Body, func(n ast.Node) bool {
+				call, ok := n.(*ast.CallExpr)
+				if !ok || len(call.Args) != 2 {
+					return true
+				}
+				isCopy := false
+				if id, ok := call.Fun.(*ast.Ident); ok && id.Name == "copy" {
+					isCopy = true
+				}
+				if se, ok := ast.Unparen(call.Fun).(*ast.SelectorExpr); ok && strings.HasPrefix(se.Sel.Name, "PutUint") {
+					isCopy = true
+				}
+				if !isCopy {
+					return true
+				}
+				sl, ok := ast.Unparen(call.Args[0]).(*ast.SliceExpr)
+				if !ok {
+					return true
+				}
+				if id, ok := ast.Unparen(sl.X).(*ast.Ident); !ok || info.Uses[id] != arr {
+					return true
+				}
+				lo, hi := int64(0), arrLen
+				if sl.Low != nil {
+					if tv, ok := info.Types[sl.Low]; ok && tv.Value != nil {
+						lo, _ = constInt(tv.Value.ExactString())
+					}
+				}
+				if sl.High != nil {
+					if tv, ok := info.Types[sl.High]; ok && tv.Value != nil {
+						hi, _ = constInt(tv.Value.ExactString())
+					}
+				}
+				writes = append(writes, rng{lo, hi, call.Args[1], call.Pos()})
+				return true
+			})
+			// disjoint + cover
+			covered := make([]int, arrLen)
+			for _, w := range writes {
+				for i := w.lo; i < w.hi && i < arrLen; i++ {
+					covered[i]++
+				}
+			}
+			okCover := len(writes) > 0
+			for _, n := range covered {
+				if n != 1 {
+					okCover = false
+				}
+			}
+			st, msg := OK, fmt.Sprintf("%d writes", len(writes))
+			if !okCover {
+				st, msg = Violation, fmt.Sprintf("the writes into the %d-byte key buffer overlap or leave a gap (bytes written %v times): one component of the key overwrites another", arrLen, covered)
+			}
+			obls = append(obls, Obl{Key: name + " key buffer ranges are disjoint and complete", Pos: c.pos(mark.Pos()), Status: st, Msg: msg})
+			// every value parameter feeds a write
+			for _, f := range fi.Decl.Type.Params.List {
+				for _, nm := range f.Names {
+					obj := info.Defs[nm]
+					if strings.Contains(obj.Type().String(), "numbercache") {
+						continue
+					}
+					feeds := false
+					for _, w := range writes {
+						if c.mentionsText(fi, w.src, nm.Name, 0) {
+							feeds = true
+						}
+					}
+					s2, m2 := OK, ""
+					if !feeds {
+						s2, m2 = Violation, fmt.Sprintf("parameter %s does not reach the cache key: series are announced once per cache lifetime regardless of %s", nm.Name, nm.Name)
+					}
+					obls = append(obls, Obl{Key: fmt.Sprintf("%s key depends on %s", name, nm.Name), Pos: c.pos(mark.Pos()), Status: s2, Msg: m2})
+				}
+			}
+		}
+		return obls
+	},
+}
+
+func init() { register(ruleA11) }
